@@ -199,8 +199,7 @@ def run_loader(ck, files, tag, batch=60, nproc=12, alarm=None):
                     continue
                 if cur is None:
                     continue
-                if "runtime error:" in line or "ERROR: AddressSanitizer" in line or "SUMMARY: AddressSanitizer" in line \
-                        or "ERROR: LeakSanitizer" in line or "terminate called" in line or "what():" in line:
+                if "runtime error:" in line or "Sanitizer" in line or "terminate called" in line or "what():" in line:
                     if len(sani[cur]) < 6:
                         sani[cur].append((stage, line.strip()[:300]))
     missing = [f["id"] for f in files if f["id"] not in outs]
@@ -228,6 +227,7 @@ def sanitizer_kind(msgs):
 
 COUNT_EVENTS = {"allocNegative", "allocHuge", "allocUnbounded", "loopUnbounded"}
 PRED_ORDER = ["vecOverflow", "writeUnsized", "useAfterClear", "count", "gridSizeMismatch", "badEnum", "badDims", "emptyPolyline"]
+DEATH_PREDS = {"vecOverflow", "writeUnsized", "useAfterClear", "count", "gridSizeMismatch", "badEnum", "badDims"}
 LENIENT_ORDER = ["dbPartIgnored", "uninitReturn", "wordAsZero", "eofDefault"]
 
 
@@ -359,7 +359,8 @@ def _run(ck, tier):
     # a death that is not reproduced either way is counted as transient (machine load) and ignored
     byid = {f["id"]: f for f in files + valid}
     unexp = [f for f in files + valid if outs[f["id"]]["outcome"] in ("crash", "timeout", "oom")
-             and pred_class(f.get("unsafe", [])) == "none"]
+             and (pred_class(f.get("unsafe", [])) not in DEATH_PREDS or
+                  (outs[f["id"]]["outcome"] == "crash" and not sanitizer_kind(sani.get(f["id"], []))))]
     transient = 0
     if unexp:
         o2, s2 = run_loader(ck, unexp, "again", batch=1, nproc=min(12, len(unexp)), alarm=60)
